@@ -228,7 +228,7 @@ def law(P, jar, want_hess=False):
       force[rs] = -D[rs] * jar[rs]
       state[rs] = S_QUAD
       dact[rs] = D[rs]
-      if live[rs[0]]:
+      if live[rs].any():  # a cone is one cost term: it counts unless every one of its rows is inert
         cost += 0.5 * float(np.sum(D[rs] * jar[rs] ** 2))
     for c in np.nonzero(top)[0]:
       rs = [i0[c]] + [r for r in iT[c] if r >= 0]
@@ -242,7 +242,7 @@ def law(P, jar, want_hess=False):
       force[rs[0]] = f0
       force[rs[1:]] = -(f0 / T[c]) * U[c][:k] * frc[c][:k]
       state[rs] = S_CONE
-      if live[rs[0]]:
+      if live[rs].any():
         cost += 0.5 * Dm * r * r
       if want_hess:
         g = np.zeros(k + 1)
